@@ -330,6 +330,11 @@ func (fr *Frame) execInstr(in ssa.Instruction, st *State) *State {
 				name = "" // functions, types, packages
 			}
 			if name != "" && name != "_" {
+				if old, has := st.env[name]; has && old.isAddr && !x.IsAddr && types.Identical(old.typ, obj.Type()) {
+					// the variable is addressable (it lives in a cell): a value DebugRef (e.g. of its initialiser) must not
+					// replace the cell binding, otherwise contracts would read a stale constant instead of the variable
+					return st
+				}
 				st.env[name] = envEntry{val: fr.val(x.X), typ: obj.Type(), isAddr: x.IsAddr}
 			}
 		}
